@@ -260,9 +260,8 @@ func (e *c09Env) runConn(in c09Input, pos []int, end string, evs []c09Ev, trickl
 	if in.complete == 1 && len(dials) == 0 {
 		o.V("C09 complete-first-packet-not-relayed", detail())
 	}
-	if in.complete == 0 && (len(dials) != 0 || len(targetGot) != 0) {
-		o.V("C09 relayed-before-first-packet-complete", detail())
-	}
+	// (relaying a byte-exact prefix while the first packet is still incomplete would not contradict the property; whether the
+	// code does so is compared with the model in the T row only)
 	impl := "drop"
 	if len(dials) > 0 {
 		impl = fmt.Sprintf("web target=%s peer=%s", hx(targetGot), hx(peerGot))
@@ -307,9 +306,6 @@ func (e *c09Env) readOnly(in c09Input, pos []int) {
 	}
 	if in.complete == 1 && ek == "read" {
 		e.c.o.V("C09 complete-first-packet-not-relayed", map[string]any{"class": in.class, "where": "readFirstPacket", "stream_len": len(in.stream), "cuts": pos, "stream": hx(trunc(in.stream, 96))})
-	}
-	if in.complete == 0 && ek != "read" {
-		e.c.o.V("C09 relayed-before-first-packet-complete", map[string]any{"class": in.class, "where": "readFirstPacket", "stream_len": len(in.stream), "cuts": pos, "n": n, "err": ek})
 	}
 }
 
@@ -467,12 +463,25 @@ func c09(c *ctx) {
 	}
 	r := c.r
 	ins := e.inputs()
+	if c.thorough() { // three more draws of every randomised input class
+		for k := 0; k < 3; k++ {
+			for _, in := range e.inputs() {
+				if in.class != "first-byte" && !strings.HasPrefix(in.class, "http-") && in.class != "empty" {
+					ins = append(ins, in)
+				}
+			}
+		}
+	}
+	every := 90 // inputs up to this length get every 1-cut
+	if c.thorough() {
+		every = 700 // covers whole Firefox / Safari ClientHellos
+	}
 	// ---- (a) readFirstPacket alone: every 1-cut of short inputs; head/tail/random 1-cuts of long ones; random multi-cuts
 	for _, in := range ins {
 		n := len(in.stream)
 		e.readOnly(in, nil)
 		var cuts []int
-		if n <= 90 {
+		if n <= every {
 			for p := 0; p <= n; p++ {
 				cuts = append(cuts, p)
 			}
